@@ -289,7 +289,7 @@ func mutate(r *hx.Rng, ab *apiBook) {
 		case 7: // values with the characters the Markdown writer escapes
 			if len(sh.Rows) > 0 {
 				row := &sh.Rows[r.Intn(len(sh.Rows))]
-				row.Cells = append(row.Cells, writers.XCell{Ref: "D" + strconv.Itoa(row.R), T: "str", V: hx.Pick(r, []string{"a|b", "l1\nl2", "|", "\n", "x\\|y", "p|q\nr|s"}), HasV: true})
+				row.Cells = append(row.Cells, writers.XCell{Ref: "D" + strconv.Itoa(row.R), T: "str", V: hx.Pick(r, []string{"a|b", "l1\nl2", "|", "\n", "x\\|y", "p|q\nr|s", "a|", "|a", "l1\n", "\nl2", "a\\", "a|\n", "||"}), HasV: true})
 				ab.note("md-special-value")
 			}
 		case 8:
@@ -675,11 +675,54 @@ func runBook(c *hx.Ctx, r *hx.Rng, ab apiBook, kase apiCase, path string, keep, 
 	c.Case(wbf, nontrivial)
 }
 
+// genEscValue draws a cell value for escapeMarkdown: pool values and words with
+// the pipe-table characters between them, in front and at the end (the last
+// character of the value is a mark in about half of the draws).
+func genEscValue(r *hx.Rng) string {
+	marks := []string{"", "|", "\n", "||", "\\", "x", "\\|", "|\n", "\n|", "\n\n"}
+	s := hx.Pick(r, rawVals) + hx.Pick(r, marks) + hx.Pick(r, words)
+	if r.Chance(1, 4) {
+		s = hx.Pick(r, marks) + s
+	}
+	if r.Chance(1, 2) {
+		s += hx.Pick(r, marks)
+	}
+	if r.Chance(1, 10) {
+		s = hx.Pick(r, marks) // nothing but a mark, or empty
+	}
+	return s
+}
+
+// escCase ties escapeMarkdown to the model and checks what it is for: written
+// as a cell of a pipe-table row between two other cells, the escaped value is
+// read back by a pipe-table reader as that one cell (line break shown as a
+// space), and the cells around it stay where they are.
+func escCase(c *hx.Ctx, s string) {
+	esc := xlsx.VerifEscapeMarkdown(s)
+	c.Op("c17.esc "+hx.HexS(s), hx.HexS(esc))
+	rows := mdTable("| before | " + esc + " | after |")
+	want := []string{"before", strings.TrimSpace(strings.ReplaceAll(s, "\n", " ")), "after"}
+	ok := len(rows) == 1 && len(rows[0]) == 3
+	for i := 0; ok && i < 3; i++ {
+		ok = rows[0][i] == want[i]
+	}
+	c.Check("C17/escape-keeps-value-in-its-cell", ok, map[string]string{"esc": hx.HexS(s)}, func() string {
+		return fmt.Sprintf("escapeMarkdown(%q)=%q: the row | before | %s | after | reads %q want %q", s, esc, esc, rows, want)
+	})
+	c.Count("esc:" + mdMarkedOr(s, "no-mark"))
+}
+
+func mdMarkedOr(s, none string) string {
+	if m := mdMarked(s); m != "" {
+		return m
+	}
+	return none
+}
+
 func apiStream(c *hx.Ctx) {
 	// escapeMarkdown and AdjustHeadingLevel on their own
-	for i := 0; i < c.N(60, 600); i++ {
-		s := hx.Pick(c.Rng, rawVals) + hx.Pick(c.Rng, []string{"", "|", "\n", "||", "\\", "x"}) + hx.Pick(c.Rng, words)
-		c.Op("c17.esc "+hx.HexS(s), hx.HexS(xlsx.VerifEscapeMarkdown(s)))
+	for i := 0; i < c.N(200, 2000); i++ {
+		escCase(c, genEscValue(c.Rng))
 	}
 	for off := -8; off <= 8; off++ {
 		for mx := -1; mx <= 8; mx++ {
